@@ -332,7 +332,16 @@ pub fn scenario_enr_answer(seed: u64, rep: &mut Report) {
             _ => build_enr(&y_sk, 3, EnrAddr::Socket(v4(10, 9, 9, 9, 999)), None),
         };
         let y_id = y_enr.node_id().raw();
-        e.peers[0].behaviour.nodes_record_override = Some(rlp_ref::encode_record(&y_enr));
+        // the answer: Y's record alone, or together with A's own record in either order
+        let yr = rlp_ref::encode_record(&y_enr);
+        let own = e.peers[0].sim.ident.record_bytes();
+        let shape = rng.below(5);
+        match shape {
+            0 | 1 => e.peers[0].behaviour.nodes_record_override = Some(yr),
+            2 => e.peers[0].behaviour.nodes_records_list = Some(vec![own, yr]),
+            3 => e.peers[0].behaviour.nodes_records_list = Some(vec![yr, own]),
+            _ => e.peers[0].behaviour.nodes_records_list = Some(vec![yr.clone(), yr]),
+        }
         e.peers[0].behaviour.nodes_packets = 1;
         e.submit(0, 1, false);
         drain(&mut e).await;
@@ -357,7 +366,7 @@ pub fn scenario_enr_answer(seed: u64, rep: &mut Report) {
                 }
             }
         }
-        rep.fingerprint(&("enr-answer", variant));
+        rep.fingerprint(&("enr-answer", variant, shape));
     });
 }
 
